@@ -16,7 +16,7 @@ UOPS = {"u.checked_add": "add", "u.checked_sub": "sub", "u.checked_mul": "mul", 
         "u.add": "add", "u.sub": "sub", "u.mul": "mul", "u.div": "div", "u.checked_rem": "rem", "u.rem": "rem", "rem": "rem", "add": "add", "sub": "sub", "mul": "mul", "div": "div"}
 IBIN = {"add": "iadd", "sub": "isub", "mul": "imul", "div": "idiv", "checked_add": "iadd", "checked_sub": "isub",
         "checked_mul": "imul", "checked_div": "idiv"}
-COMM = {"add", "mul", "iadd", "imul"}
+COMM = {"add", "mul", "iadd", "imul", "absdiff"}
 
 
 def N(ix, v, depth=40):
@@ -35,6 +35,8 @@ def N(ix, v, depth=40):
         nm = payload(v)[0]
         if nm in UOPS and len(kids(v)) == 2:
             return (UOPS[nm], N(ix, kids(v)[0], depth - 1), N(ix, kids(v)[1], depth - 1))
+        if nm in ("u.abs_diff", "abs_diff") and len(kids(v)) == 2:
+            return ("absdiff", N(ix, kids(v)[0], depth - 1), N(ix, kids(v)[1], depth - 1))
         if nm in ("min", "max") and len(kids(v)) == 2:
             return (nm, N(ix, kids(v)[0], depth - 1), N(ix, kids(v)[1], depth - 1))
         return ("leaf", v)
